@@ -765,7 +765,10 @@ func (c *Compiler) writeNode(node, parent *node, recv, v, vsrc string, depth int
 				}
 				c.wl("_ = ", nv)
 				if mode == modeCmp && ch.ptr {
+					// The "nil" operand asks for the field itself only when the path ends here.
+					c.wl("if len(path) == ", strconv.Itoa(depth+1), " {")
 					c.writeCmp(ch, nv)
+					c.wl("}")
 				}
 				err := c.writeNode(ch, node, recv, nv, vsrc, depth+1, mode)
 				if err != nil {
